@@ -25,6 +25,22 @@ TINY = 2.3e-308
 
 # ----------------------------------------------------------------------------- exact helpers
 
+def run_driver_parallel(lines, jobs=None):
+    """the exact-rational model runs are independent: several driver processes, outputs in input order"""
+    from concurrent.futures import ThreadPoolExecutor
+    jobs = jobs or max(1, min(12, vlib.NPROC - 2))
+    if len(lines) < 2 * jobs:
+        return vlib.run_driver(lines)
+    chunks = [lines[i::jobs] for i in range(jobs)]
+    with ThreadPoolExecutor(max_workers=jobs) as ex:
+        outs = list(ex.map(vlib.run_driver, chunks))
+    res = [None] * len(lines)
+    for i, o in enumerate(outs):
+        res[i::jobs] = o
+    return res
+
+
+
 def det_frac(A):
     n = len(A)
     M = [[Fraction(x) for x in row] for row in A]
@@ -129,7 +145,7 @@ def gen_uvr(g, tier, idx):
     r = g.r
     big = 6 if tier == "quick" else 8
     for _attempt in range(50):
-        style = r.choice(["dyadic", "full", "full", "VeqUt", "kwide", "dominantUV", "indefW", "illR"])
+        style = r.choice(["dyadic", "full", "full", "VeqUt", "kwide", "dominantUV", "indefW", "illR", "isoR"])
         d = idx % big + 1 if idx < 3 * big else r.randint(1, big)
         divs = divisors(d)
         enc = idx % 2 if idx < 3 * big else r.randint(0, 1)
@@ -150,6 +166,9 @@ def gen_uvr(g, tier, idx):
         else:
             condR = 10 ** r.uniform(2, 4) if style == "illR" else 10 ** r.uniform(0, 2)
             blocks = [g.spd(bs, cond=condR, scale=10 ** r.uniform(-1, 1)) for _ in range(nblk)]
+            if style == "isoR":       # isotropic blocks sigma_i^2 I (distinct sigma_i)
+                blocks = [[[(10 ** r.uniform(-1, 1) if a == c else 0.0) for c in range(bs)] for a in range(bs)] for _ in range(nblk)]
+                blocks = [[[blk[0][0] if a == c else 0.0 for c in range(bs)] for a in range(bs)] for blk in blocks]
             su = 10 ** r.uniform(0.5, 1.5) if style == "dominantUV" else 10 ** r.uniform(-1, 0.5)
             U = [[r.uniform(-su, su) for _ in range(k)] for _ in range(d)]
             if style == "VeqUt":
@@ -192,7 +211,7 @@ def gen_uvr(g, tier, idx):
 def gen_lse(g, tier, idx):
     r = g.r
     big = 8 if tier == "quick" else 40
-    style = r.choice(["moderate", "huge", "spread", "neginf", "neginf", "equal", "single", "negbig", "mixed", "matrix"])
+    style = r.choice(["moderate", "huge", "spread", "neginf", "neginf", "equal", "single", "negbig", "posbig", "lonelyfinite", "mixed", "matrix"])
     n = 1 if style == "single" else (idx % big + 1 if idx < big else r.randint(1, big))
     if style == "moderate":
         x = [r.uniform(-30, 30) for _ in range(n)]
@@ -206,8 +225,15 @@ def gen_lse(g, tier, idx):
     elif style == "equal":
         v = r.uniform(-1e4, 1e4)
         x = [v] * n
-    elif style == "negbig":
-        x = [r.uniform(-1e4, -9e3) for _ in range(n)]
+    elif style == "negbig":       # every finite entry below -745: exp underflows without the shift
+        lo = r.choice([-1e4, -2000.0, -810.0])
+        x = [r.uniform(lo, lo + r.choice([1.0, 10.0, 50.0])) for _ in range(n)]
+    elif style == "posbig":       # every entry above +710: exp overflows without the shift
+        lo = r.choice([9e3, 2000.0, 711.0])
+        x = [r.uniform(lo, lo + r.choice([1.0, 10.0, 50.0])) for _ in range(n)]
+    elif style == "lonelyfinite":  # one finite (very negative) entry among -inf entries
+        x = [-math.inf] * n
+        x[r.randrange(n)] = r.choice([-1000.0, -1e4, r.uniform(-1e4, -746.0)])
     elif style == "single":
         x = [r.choice([0.0, 1e4, -1e4, r.uniform(-1e4, 1e4)])]
     elif style == "mixed":
@@ -280,7 +306,7 @@ def check_ld_like(tag, d, b, Lc, Dc, Lstar, tolL, probs, stats, what):
         if not (abs(Lc[c] - Lstar[c]) <= t):
             probs.append(("prop", tag + "-logdensity-wrong", "%s: column %d: log-density %.17g, definition gives %.17g (tol %.3g)" % (what, c, Lc[c], Lstar[c], t)))
         want = math.exp(Lstar[c]) if Lstar[c] > -745.2 else 0.0
-        td = want * math.expm1(t + 8 * EPS * abs(Lstar[c])) + 8 * EPS * want + TINY
+        td = want * math.expm1(min(50.0, t + 8 * EPS * abs(Lstar[c]))) + 8 * EPS * want + TINY
         if not (abs(Dc[c] - want) <= td):
             probs.append(("prop", tag + "-density-wrong", "%s: column %d: density %.17g, exp(definition) = %.17g (tol %.3g)" % (what, c, Dc[c], want, td)))
         # the density is the exponential of the log-density the same function family returns
@@ -421,7 +447,7 @@ def check_uvr(line, meta, hout, dout, stats):
         if not (abs(Lu[c] - Ld[c]) <= tt):
             probs.append(("prop", "uvr-vs-direct-logdensity", "column %d: factorised log-density %.17g, direct %.17g (tol %.3g)" % (c, Lu[c], Ld[c], tt)))
         big = max(abs(Du[c]), abs(Dd[c]))
-        if not (abs(Du[c] - Dd[c]) <= big * math.expm1(tt) + TINY):
+        if not (abs(Du[c] - Dd[c]) <= big * math.expm1(min(50.0, tt)) + TINY):
             probs.append(("prop", "uvr-vs-direct-density", "column %d: factorised density %.17g, direct %.17g" % (c, Du[c], Dd[c])))
         # correspondence: model vs implementation
         if not (abs(Lu[c] - mL[c]) <= tolU[c] + 8 * EPS * abs(Lstar[c])):
@@ -492,7 +518,7 @@ def corpus_cases():
             ln = ln.strip()
             if ln and not ln.startswith("#"):
                 op = ln.split()[0]
-                out.append((ln, {"op": op, "style": "corpus", "shift": 1.0}))
+                out.append((ln, {"op": op, "style": "corpus", "shift": [1.0, -3.5, 1000.0][len(out) % 3]}))
     return out
 
 
@@ -501,11 +527,11 @@ def run(ctx):
     binary = vlib.build_harness("h_density")
     cases = corpus_cases()
     g1, g2, g3 = ctx.gen("ld"), ctx.gen("uvr"), ctx.gen("lse")
-    for i in range(ctx.n(90, 2500)):
+    for i in range(ctx.n(160, 2500)):
         cases.append(gen_ld(g1, ctx.tier, i))
-    for i in range(ctx.n(130, 3500)):
+    for i in range(ctx.n(260, 3500)):
         cases.append(gen_uvr(g2, ctx.tier, i))
-    for i in range(ctx.n(220, 6000)):
+    for i in range(ctx.n(400, 6000)):
         cases.append(gen_lse(g3, ctx.tier, i))
     if ctx.replay:
         line = json.load(open(ctx.replay))["replay"]["input_line"]
@@ -534,7 +560,7 @@ def run(ctx):
                 hlines.append(" ".join(["lsem", str(meta["shape"][0]), str(meta["shape"][1])] + t[2:]))
             index.append(ent)
     hout, logs = vlib.run_harness(binary, hlines)
-    dout = vlib.run_driver(dlines)
+    dout = run_driver_parallel(dlines)
 
     stats, hist, branch = {}, {}, {}
     distinct, nontrivial = set(), set()
